@@ -45,7 +45,14 @@ def run_one(items, cfg, segmentation='line'):
     items, exps, model = sm.predict(items, cfg)
     lines = sm.build_stream(items, exps)
     if segmentation == 'burst':
-        segs = [b''.join(lines)]
+        # one burst, except that a client never pipelines behind STARTTLS (what it would send there is discarded, see C08)
+        segs, cur = [], b''
+        for l in lines:
+            cur += l
+            if l.strip().upper().startswith(b'STARTTLS'):
+                segs.append(cur)
+                cur = b''
+        segs.append(cur)
     elif segmentation == 'bytes':
         data = b''.join(lines)
         segs = [data[i:i + 1] for i in range(len(data))]
